@@ -477,6 +477,8 @@ func fixtureByID(id string) (stick.Value, error) {
 				m[e[0]] = e[1]
 			}
 			return m, nil
+		case "mixed":
+			return map[interface{}]string{1: "int", "1": "str", "true": "strtrue", true: "bool"}, nil
 		case "nilss":
 			return map[string]string(nil), nil
 		}
